@@ -13,7 +13,7 @@ import (
 )
 
 func init() {
-	register("C09", "The liveness claim (every final message is eventually observed) is NOT decided. Decided structural necessary conditions of the never-crashes / never-stalls / never-spins / never-drops half, on pkg/alephium SSA: (page-exit) the page loop's exit must be an ordering comparison that fires whenever the cursor has reached or passed the polled count — an equality exit never fires once new events arrive between the count request and a page request, and every iteration performs an API call; (isolate) inside the per-event loop a content error (conversion/validation of one event) must not return out of the page, and no content-originated error may reach errC (errC ends Run; the restart re-initialises the cursor to the current count and drops everything not yet fetched) — error origins are classified transport (client.* results) vs content (To*/parse*/validate*/fmt.Errorf) by data flow through return values; (errC-shape) every errC send is immediately followed by return; (optional-deref) every dereference of a one-of pointer field of the SDK's result types needs a must-hold non-nil fact for the same access path; (no-panic) explicit panics and index/slice expressions in the functions reachable from Watcher.Run are enumerated and discharged by dominating bound facts.", c09)
+	register("C09", "The liveness claim (every final message is eventually observed) is NOT decided. Decided structural necessary conditions of the never-crashes / never-stalls / never-spins / never-drops half, on pkg/alephium SSA: (page-exit) the page loop's exit must be an ordering comparison that fires whenever the cursor has reached or passed the polled count — an equality exit never fires once new events arrive between the count request and a page request, and every iteration performs an API call; (isolate) inside the per-event loop a content error (conversion/validation of one event) must not return out of the page, and no content-originated error may reach errC (errC ends Run; the restart re-initialises the cursor to the current count and drops everything not yet fetched) — error origins are classified transport (client.* results) vs content (To*/parse*/validate*/fmt.Errorf) by data flow through return values; (errC-shape) every errC send is immediately followed by return; (optional-deref) every dereference of a one-of pointer field of the SDK's result types needs a must-hold non-nil fact for the same access path; (no-panic) explicit panics and index/slice expressions in the functions reachable from Watcher.Run are enumerated and discharged by dominating bound facts. (pending-list-only-grows) filing a received event writes append(<the block's pending list>, …): events already waiting for a block are never replaced by a later batch.", c09)
 }
 
 const sdkPkg = "github.com/alephium/go-sdk"
